@@ -132,6 +132,13 @@ def check_selection(col, pid, spec, d, plain, ids, tags, R, X, T, kw, rp, args, 
         if not same(ref[1].result, res[1]):
             col.violation(pid, "returned_values_not_real_values_or_None", dict(
                 selection=S.jsonable(kw), expected=short(ref[1].result, 400), got=short(res[1], 400), source=S.render(spec)), rp)
+    if env_values is not None:
+        # setup results stay on the instance: a later selection on the SAME object finds them "already computed"
+        for e in log:
+            if e["kind"] == "FEXIT" and e.get("ok") and e["node"] in ids:
+                i = ids.index(e["node"])
+                if spec["fns"][spec["nodes"][i]["fn"]].get("setup"):
+                    env_values.setdefault(i, e["value"])
     return exp
 
 
@@ -209,8 +216,16 @@ def run_shape(col, pid, rng, n, edges, exhaustive, limit, with_setup=False, with
     d = None
     trs = triples_for(spec, rng, exhaustive, limit)
     env_values = {}
+    from tawazi.config import cfg as _tcfg
+
+    # no debug node in these shapes: RUN_DEBUG_NODES on must not change which closure runs ("debug rules aside")
+    debug_flag_on = rng.random() < 0.25
+    old_flag = _tcfg.RUN_DEBUG_NODES
+    if debug_flag_on:
+        col.counters["c12_shapes_run_with_RUN_DEBUG_NODES_on"] += 1
     for (R, X, T) in trs:
-        if d is None or setup:
+        if d is None or (setup and rng.random() < 0.5):
+            # (half of the time the previous object is kept: its setup results are "already computed" for the next selection)
             d, _e, _p = S.build_tawazi(spec, plain=plain)
             env_values = {}
         kw = {}
@@ -244,8 +259,12 @@ def run_shape(col, pid, rng, n, edges, exhaustive, limit, with_setup=False, with
             R, X, T = R2, X2, T2
             col.counters["c12_alias_denotes_other_sites"] += 1
         args = [Sym("arg", rng.randrange(1 << 30))] if rng.random() < 0.7 else []
-        rp2 = dict(rp, triple=[R, X, T], kw=S.jsonable(kw))
-        exp = check_selection(col, pid, spec, d, plain, ids, tags, R, X, T, kw, rp2, args, env_values=env_values)
+        rp2 = dict(rp, triple=[R, X, T], kw=S.jsonable(kw), run_debug_nodes=debug_flag_on)
+        _tcfg.RUN_DEBUG_NODES = debug_flag_on
+        try:
+            exp = check_selection(col, pid, spec, d, plain, ids, tags, R, X, T, kw, rp2, args, env_values=env_values)
+        finally:
+            _tcfg.RUN_DEBUG_NODES = old_flag
         if exp is not None and n >= 2:
             col.hashes.add(S.spec_hash({"e": sorted(edges), "n": n, "s": sorted(setup), "t": [R, X, T]}))
         if col.evaluations % 500 == 2:
@@ -307,7 +326,17 @@ def _replay_sel(j, rp):
         for name, sites in (("root_nodes", R), ("exclude_nodes", X), ("target_nodes", T)):
             if sites is not None:
                 kw[name] = [d.get_node_by_id(ids[i]) for i in sites]
-        check_selection(col, j.get("pid", "C12"), spec, d, plain, ids, tags, R, X, T, kw, rp, [Sym("arg", 1)])
+        from tawazi.config import cfg as _tcfg
+
+        old_flag = _tcfg.RUN_DEBUG_NODES
+        _tcfg.RUN_DEBUG_NODES = bool(rp.get("run_debug_nodes"))
+        try:
+            # (a history on one object is replayed as: the same selection twice on one object)
+            env_values = {}
+            check_selection(col, j.get("pid", "C12"), spec, d, plain, ids, tags, R, X, T, kw, rp, [Sym("arg", 1)], env_values=env_values)
+            check_selection(col, j.get("pid", "C12"), spec, d, plain, ids, tags, R, X, T, kw, rp, [Sym("arg", 2)], env_values=env_values)
+        finally:
+            _tcfg.RUN_DEBUG_NODES = old_flag
     return col.result()
 
 
@@ -406,9 +435,20 @@ def dbg_shape(col, pid, rng, n, edges):
     try:
         for op, kw, triple in ops:
             outs = {}
+            reconf = None
+            if rng.random() < 0.35:
+                # a configuration reload that names some nodes (debug ones included) only to change their priority:
+                # what is a debug node stays a debug node
+                uses_ = Counter(nd["fn"] for nd in spec["nodes"])
+                named = [i for i in range(n) if uses_[spec["nodes"][i]["fn"]] == 1 and rng.random() < 0.5]
+                if named:
+                    reconf = {"nodes": {ids[i]: {"priority": rng.randint(0, 4)} for i in named}}
+                    col.counters["c13_runs_after_config_reload"] += 1
             for flag in (False, True):
                 cfg.RUN_DEBUG_NODES = flag
                 d, _e, _p = build_legal(col, pid, spec, plain, rp)
+                if reconf:
+                    d.config_from_dict(reconf)
                 args = [Sym("arg", 5)]
                 res, log = run_any(d, op, kw, args if op != "setup" else [])
                 col.evaluations += 1
@@ -577,11 +617,58 @@ def dbg_nested(col, pid, rng, k):
 REGISTRY["replay:dbg_nested"] = lambda j, rp: (lambda col: ([dbg_nested(col, "C13", random.Random(q), q) for q in range(20)], col.result())[1])(Collector())
 
 
+def env_flag_case(col, pid, rng, want, j):
+    """Without touching cfg: a whole-DAG call runs every debug node once iff the environment switched them on."""
+    for k in range(10):
+        n = rng.randint(2, 6)
+        edges = [(a, b) for b in range(n) for a in range(b) if rng.random() < 0.3]
+        g0 = nx.DiGraph()
+        g0.add_nodes_from(range(n))
+        g0.add_edges_from(edges)
+        debug = set()
+        for i in range(n):
+            if any(q in debug for q in g0.predecessors(i)) or rng.random() < 0.4:
+                debug.add(i)
+        if not debug:
+            continue
+        spec = mk_sel_spec(n, edges, rng, debug=debug)
+        spec["is_async"] = rng.random() < 0.3
+        plain = {name: probes.mkprobe(name) for name in spec["fns"]}
+        ids = S.node_ids(spec)
+        d, _e, _p = S.build_tawazi(spec, plain=plain)
+        res, log = run_any(d, "call", {}, [Sym("arg", k)])
+        ran = {e["node"] for e in log if e["kind"] == "FENTER"}
+        col.evaluations += 1
+        dbg_ran = sorted(ids[i] for i in debug if ids[i] in ran)
+        exp = sorted(ids[i] for i in debug) if want else []
+        if res[0] != "ok" or dbg_ran != exp:
+            col.violation(pid, "debug_nodes_do_not_follow_the_environment_switch", dict(
+                RUN_DEBUG_NODES=want, debug_nodes_that_ran=dbg_ran, expected=exp, outcome=res[0], source=S.render(spec)), {"kind": "rerun_job", "job": dict(j)})
+
+
 @job("dbg")
 def job_dbg(j):
     rng = random.Random(j["seed"])
     col = Collector()
-    pid = "C13"
+    pid = j.get("pid", "C13")
+    if j.get("only"):
+        from .jobs import Filtered
+
+        col = Filtered(col, j["only"])
+    if j.get("expect_env_flag") is not None:
+        # the switch given the documented way: RUN_DEBUG_NODES in the environment of the process (read when tawazi is imported)
+        import os
+
+        from tawazi.config import cfg
+
+        want = bool(j["expect_env_flag"])
+        col.counters["c13_env_flag_checks"] += 1
+        col.evaluations += 1
+        if bool(cfg.RUN_DEBUG_NODES) != want:
+            col.violation(pid, "RUN_DEBUG_NODES_environment_variable_not_honoured", dict(
+                environment=os.environ.get("RUN_DEBUG_NODES"), cfg_value=cfg.RUN_DEBUG_NODES), {"kind": "rerun_job", "job": dict(j)})
+        else:
+            env_flag_case(col, pid, rng, want, j)
     for q in range(j.get("random_shapes", 50)):
         n = rng.randint(2, j.get("nmax", 8))
         edges = [(a, b) for b in range(n) for a in range(b) if rng.random() < 0.3]
